@@ -1237,6 +1237,10 @@ impl Server {
 
     pub fn cancel_task(&mut self, task_id: TaskId) {
         self.queued_tasks.remove(&task_id);
+        // the requests already scattered for it are no longer awaited: without
+        // this their ids stayed in the in-flight table for ever
+        self.in_flight
+            .retain(|_, in_flight_task_id| *in_flight_task_id != task_id);
     }
 
     /// Called when the main cannot communicate anymore with a worker (it's channel closed)
